@@ -497,3 +497,29 @@ package cmd
 //@   return@L1 [an_erroneous_tree_stops_the_command_with_its_error] result == t.Err && result != nil
 //@   loop 1
 //@     step [one_line_per_tree] ghost(ncalls_Newick) == atHead(ghost(ncalls_Newick)) + 1 && ghost(ncalls_WriteString) == atHead(ghost(ncalls_WriteString)) + 1
+
+// brlen setmin (property C19, "what the command does with the value"): every branch of the kind asked for whose length
+// is below the threshold of *this command's own option* is set to exactly that threshold; no other branch is written
+//@ func cmd.minbrlenCmd.RunE
+//@   flag noframe
+//@   flag countcalls
+//@   recv treechan [message_is_a_tree_or_an_error] msg.Err == nil ==> msg.Tree != nil
+//@   call (*tree.Edge).SetLength [only_branches_of_the_kind_asked_for_that_are_shorter_than_this_command_s_own_threshold_and_they_get_exactly_it] a0 == e && a1 == minbrlencutoff && e.length < minbrlencutoff && ((len(e.right.neigh) == 1 && brlenexternal) || (len(e.right.neigh) != 1 && brleninternal))
+//@   call (*tree.Tree).Newick [the_tree_written_is_the_tree_just_edited] a0 == t.Tree
+//@   loop 1
+//@     step [one_line_per_tree] ghost(ncalls_Newick) == atHead(ghost(ncalls_Newick)) + 1
+//@   loop 2
+//@     step [a_branch_is_set_exactly_when_it_is_of_the_kind_asked_for_and_shorter_than_the_threshold] ghost(ncalls_SetLength) == atHead(ghost(ncalls_SetLength)) + ((((len(e.right.neigh) == 1 && brlenexternal) || (len(e.right.neigh) != 1 && brleninternal)) && atHead(e.length) < minbrlencutoff) ? 1 : 0)
+
+// brlen cut (property C14): every tree read is cut with the threshold of the option, whatever its value, and every group
+// returned is written on a line of its own with the names of its tips in the group's own (sorted) order
+//@ func cmd.cutCmd.RunE
+//@   flag noframe
+//@   flag countcalls
+//@   recv treechan [message_is_a_tree_or_an_error] msg.Err == nil ==> msg.Tree != nil
+//@   call (*tree.Tree).CutEdgesMaxLength [the_tree_just_read_with_the_threshold_as_given] a0 == t.Tree && a1 == cutlengthmax && t.Err == nil
+//@   call (*tree.TipBag).Tips [the_tips_of_the_group_being_written] a0 == b
+//@   loop 1
+//@     step [every_tree_read_is_cut_whatever_the_threshold] ghost(ncalls_CutEdgesMaxLength) == atHead(ghost(ncalls_CutEdgesMaxLength)) + 1
+//@   loop 2
+//@     step [one_line_per_group] ghost(ncalls_Tips) == atHead(ghost(ncalls_Tips)) + 1
